@@ -35,6 +35,16 @@ def outcomeOf : Option ErrTree → Outcome
   | none => .final
   | some t => if t.isShutdown then .shutdownErr else .final
 
+/-- `multierr.Append(a, b)`: nil is neutral, otherwise the two errors are combined into one multi-error -/
+def appendErr : Option ErrTree → Option ErrTree → Option ErrTree
+  | none, b => b
+  | some a, none => some a
+  | some a, some b => some (.join a b)
+
+/-- `refCountDone` (`default_batcher.go`): a request that the batcher exports in several flushes reports, when the last
+    flush has returned, `multierr.Append` over the errors of the flushes in the order in which they returned -/
+def aggregate (parts : List (Option ErrTree)) : Option ErrTree := parts.foldl appendErr none
+
 /-- shapes as printed by the harness: `E` `P` plain, `S` / `S(t)` shutdown, `W(t)` wrap, `J(a,b)` `M(a,b)` join -/
 def parseErrTree : Nat → List Char → Option (ErrTree × List Char)
   | 0, _ => none
